@@ -369,4 +369,11 @@ example :
 /-- the text `a\` + newline is escaped to `a\\n`… and read back: only a literal backslash-n pair is lost -/
 example : unescNL (escNL "a\\\n".toList) = "a\\\n".toList ∧ unescNL (escNL "a\\n".toList) ≠ "a\\n".toList := by decide
 
+
+/-- **C17_source_constants.**  The batching constants the model reads from the source on every run are the ones
+the property and BACKENDS.md speak about: CloudWatch chunks hold at most 20 data, and Datadog and
+New Relic use the same slack. -/
+theorem C17_source_constants :
+    cwLimit ≤ 20 ∧ 0 < cwLimit ∧ Facts.newrelicFlushSlack = flushSlack := by decide
+
 end Gsd
